@@ -31,6 +31,7 @@ func runC01(c *run.Ctx) {
 	r := c.Res
 	g := c.R("world")
 	cfg := world.DefaultCfg()
+	cfg.KindTwins, cfg.SharedNames = 0.12, 0.1
 	if g.P(0.3) {
 		cfg.Kinds = world.AllWorkloadKinds[:7]
 	}
